@@ -505,15 +505,22 @@ def inline_repo_calls(repo, t, depth=2, only_mod=None):
             continue
         fn = m.functions[q]
         names = [a.arg for a in fn.args.args]
-        if fn.args.vararg or fn.args.kwarg or (names and names[0] in ("self", "cls")) or len(x) - 2 > len(names) \
-                or len(x) - 2 < len(names) - len(fn.args.defaults):
+        if fn.args.vararg or fn.args.kwarg or len(x) - 2 > len(names) or len(x) - 2 < len(names) - len(fn.args.defaults):
             continue
         syms = [T.sym("INL@%s@%d" % (x[1], i)) for i in range(len(x) - 2)]
+        args = dict(zip(names, syms))
+        acts = dict(zip(syms, x[2:]))
+        if names and names[0] in ("self", "cls"):
+            # a method: only on a receiver whose kind the evaluator models (an Epoch / Angle value)
+            if len(x) < 3 or x[2][0] not in ("epoch", "angle"):
+                continue
+            args[names[0]] = (x[2][0], syms[0])
+            acts[syms[0]] = x[2][1]
         try:
-            body = ret_term(repo, mod, q, arg_terms=dict(zip(names, syms)))
+            body = ret_term(repo, mod, q, arg_terms=args)
         except Exception:
             continue
-        mp[x] = inline_repo_calls(repo, T.subst(body, dict(zip(syms, x[2:]))), depth - 1, only_mod)
+        mp[x] = inline_repo_calls(repo, T.subst(body, acts), depth - 1, only_mod)
     return T.subst(t, mp) if mp else t
 
 
